@@ -73,6 +73,7 @@ func runC03(c *Ctx, faults bool) {
 		f.Put4xx = pickRateB(t, "put4xx", 1, 6)
 		f.Put422 = pickRateB(t, "put422", 1, 6)
 		f.PutLostReply = pickRateB(t, "putlost", 1, 5)
+		f.PutNotStored = pickRateB(t, "putnotstored", 1, 3)
 		f.Verify5xx = pickRateB(t, "verify5xx", 1, 5)
 		f.Verify4xx = pickRateB(t, "verify4xx", 1, 6)
 		f.ObjError = pickRateB(t, "objerror", 1, 6)
@@ -96,6 +97,8 @@ func runC03(c *Ctx, faults bool) {
 		w.MustGit(u1, "remote", "add", "second", remote2)
 	}
 	c.Res.Nontrivial = true
+	c.serverGC = t.Bool(1, 3, "server-gc")
+	h.tagLikeBranch = t.Bool(1, 3, "tags-named-like-branches")
 	nsteps := 4 + t.Choose(14, "n-steps")
 	exempt := map[string]bool{}
 	pushes := 0
@@ -103,6 +106,28 @@ func runC03(c *Ctx, faults bool) {
 		if t.Choose(3, "step-kind") != 0 {
 			h.Step()
 			continue
+		}
+		// sometimes another user deletes a branch on the remote behind this
+		// clone's back (its remote-tracking ref goes stale) and the server
+		// garbage-collects what is no longer referenced
+		if t.Bool(1, 8, "remote-side-branch-deletion") {
+			refs := w.Refs(remote)
+			var bs []string
+			for r := range refs {
+				if strings.HasPrefix(r, "refs/heads/") && r != "refs/heads/main" {
+					bs = append(bs, r)
+				}
+			}
+			sort.Strings(bs)
+			if len(bs) > 0 {
+				victim := bs[t.Choose(len(bs), "remote-deletes")]
+				w.Git(remote, "update-ref", "-d", victim)
+				h.log("remote side deleted %s", victim)
+				c.Probe("remote-side-branch-deletion")
+				if serverGC(c, w, remote, remote2) {
+					c.Probe("server-gc-dropped-objects")
+				}
+			}
 		}
 		// sometimes lose local objects first
 		var lost []string
@@ -202,6 +227,9 @@ func doPush(c *Ctx, w *World, h *Hist, u1, remote, remote2 string, allowIncomple
 		return
 	}
 	c.Probe("push-ok")
+	if isGitPush && serverGC(c, w, remote, remote2) {
+		c.Probe("server-gc-dropped-objects")
+	}
 	if !isGitPush {
 		return // git lfs push moves no ref; the invariant is checked at ref-moving pushes
 	}
@@ -229,3 +257,31 @@ func doPush(c *Ctx, w *World, h *Hist, u1, remote, remote2 string, allowIncomple
 	}
 }
 
+// serverGC models a server that garbage-collects: in scenarios that opted in,
+// objects no longer referenced from any ref of any remote are dropped from the
+// LFS store after a push (legitimate server behaviour; later pushes of commits
+// that reference them must upload them again).
+func serverGC(c *Ctx, w *World, remotes ...string) bool {
+	if !c.serverGC {
+		return false
+	}
+	keep := map[string]bool{}
+	for _, r := range remotes {
+		if r == "" {
+			continue
+		}
+		for oid := range w.ReachablePointers(r, "--all") {
+			keep[oid] = true
+		}
+	}
+	dropped := false
+	w.Front.mu.Lock()
+	for oid := range w.Srv.Store {
+		if !keep[oid] {
+			delete(w.Srv.Store, oid)
+			dropped = true
+		}
+	}
+	w.Front.mu.Unlock()
+	return dropped
+}
